@@ -43,6 +43,12 @@
 //     not move any connection: the configured proxy listens as a decoy. Sockets of
 //     members that inherit the plugin-global so_mark carry groupMarkBase+group and
 //     are resolved to the member that may contact the destination.
+//   - server-behaviour dimension (hostile.go): the configured destination may answer
+//     whatever it likes - redirects, Alt-Svc, 421, closed connections, refused
+//     handshakes, other ALPN offers, QUIC Retry. The user's address is not altered
+//     by that: every later connection / TLS name / HTTP authority / path of the
+//     upstream is judged on the same expectation as the first, a decoy stands where
+//     the server points, and a TLS based scheme never speaks plain text.
 package main
 
 import (
@@ -189,7 +195,7 @@ func (p *parent) nextSet() *JobSet {
 			to = 1500
 		}
 		job := Job{ID: c.ID, Addr: c.Addr, DialAddr: c.DialAddr, Socks5: cr.socksAddr,
-			Bootstrap: cr.bootAddr, BootVer: c.BootVer, TimeoutMS: to, SoMark: c.ID + 1}
+			Bootstrap: cr.bootAddr, BootVer: c.BootVer, TimeoutMS: to, SoMark: c.ID + 1, Exchanges: c.Exchanges}
 		if c.Socks5Opt != "" {
 			fwdJob(&job, c, cr)
 		}
@@ -623,6 +629,9 @@ func judge(c *Case, e Expect, res *Result, cr *caseRes, evs []destEvent, own map
 		}
 	}
 
+	// (6) the endpoint a hostile server pointed at (phase 3) must not have been contacted
+	judgeDecoy(c, cr, own, add)
+
 	// (5) TLS server name, (3) HTTP - judged per connection, and only on
 	// connections whose source port belongs to a socket the trace attributes to
 	// this case (the proxy's port is private to the case). Whatever else arrives
@@ -661,6 +670,11 @@ func judge(c *Case, e Expect, res *Result, cr *caseRes, evs []destEvent, own map
 		}
 		rep.Count("own_connections_judged", 1)
 		rep.Count("own_connections_judged_"+co.Proto+"_"+co.Via, 1)
+		if co.Cleartext != "" {
+			add("tls-dropped", sniForm, "the connection from this case's source port %d to the configured destination did not start with a TLS record but with a plain-text HTTP request (%s); the configured scheme is %s", co.RemotePort, co.Cleartext, schemeWords(c.Scheme))
+			continue
+		}
+		rep.Count("own_tls_connections_opened_with_a_tls_record", boolN(tlsBased(c.Scheme) && co.Proto == "tcp" && co.HelloSeen))
 		if co.HelloSeen {
 			if strings.EqualFold(co.SNI, e.SNI) {
 				rep.Count("clienthello_sni_equals_expected", 1)
@@ -822,7 +836,12 @@ func main() {
 		"{dial_addr none / 6 forms} x {socks5 none / per-upstream / plugin-global} x {bootstrap none / per-upstream / plugin-global} x {bootstrap_version per-upstream / inherited} x " +
 		"{so_mark per-upstream / plugin-global}; one focus option per group follows a non-constant presence pattern over the positions (every order), the rest is drawn per member; " +
 		"option singles = the same option variety through upstream.NewUpstream, half of them with a socks5 proxy on a scheme documented to ignore it (udp incl. truncated reply -> TCP retry, quic, h3): " +
-		"the proxy is a listening decoy and no traced connect() / CONNECT request of the upstream may reach it")
+		"the proxy is a listening decoy and no traced connect() / CONNECT request of the upstream may reach it. "+
+		"Phase 3 (server-behaviour dimension, appended): single upstreams of every scheme (2 of 3 https / h3) x {IPv4 / IPv6 loopback literal, host name via bootstrap} x {port, none} x {dial_addr none / IP / IP:port} x {direct, SOCKS5}, "+
+		"4 exchanges in sequence against a harness server that plays one behaviour, cycled per scheme: redirect {301,302,303,307,308} x {other host, other host + other port, IP literal of a decoy listener, same host other port, http:// same authority, http:// decoy, relative path, scheme-relative}, "+
+		"Alt-Svc advertising h3 / h2 at another port / the decoy, 421 / 503+Retry-After, connection closed after each reply / without reply / after the handshake / every other TLS handshake refused, other ALPN offers, QUIC Retry; "+
+		"a decoy (TCP+TLS, QUIC) listens where the server points. Such a case is non-trivial when the behaviour was actually played and the case's destinations were positively observed; every connection, ClientHello and request that follows is judged like the first, "+
+		"nothing from the case's sockets may reach the decoy, and no connection of a TLS based scheme may start in plain text")
 	rep.Assume("strace reports the sockaddr arguments of connect/sendto/sendmsg/sendmmsg faithfully; SO_MARK set through Opt.SoMark labels every socket mosdns opens for a case")
 	rep.Assume("Go's crypto/tls and net/http, quic-go, x/net/proxy and miekg/dns behave as documented (harness servers are built on them)")
 	rep.Assume("a context of 300 ms (unreachable destinations) / 1.5 s (loopback) only bounds how long a case is watched; no verdict depends on elapsed time")
@@ -849,6 +868,7 @@ func main() {
 	} else {
 		cases = genCases(rep.Seed, rep.Pick(1600, 30000))
 		cases = append(cases, genOptionPhase(rep.Seed, len(cases), rep.Pick(120, 2400), rep.Pick(60, 1200))...)
+		cases = append(cases, genHostilePhase(rep.Seed, len(cases), rep.Pick(180, 3600))...)
 	}
 
 	tmp := os.Getenv("VERIF_TMP")
@@ -1128,7 +1148,9 @@ func evaluate(p *parent, tr *traceResult) {
 		} else {
 			rep.Max("max_connections_seen_in_one_unambiguous_case", n)
 		}
-		if e.Reachable && cr.listening && !res.ReplyOK {
+		if e.Reachable && cr.listening && !res.ReplyOK && c.Srv != "" {
+			rep.Count("hostile_cases_never_answered_by_design_or_refusal", 1)
+		} else if e.Reachable && cr.listening && !res.ReplyOK {
 			rep.Count("reachable_but_unanswered", 1)
 			rep.SetAdd("reachable_unanswered_errors", trunc(res.ExchErr, 90))
 			rep.SetAdd("reachable_unanswered_cases", fmt.Sprintf("%s dial=%q via=%s tc=%v: %s", c.Addr, c.DialAddr, c.Via, c.TC, trunc(res.ExchErr, 60)))
@@ -1136,6 +1158,7 @@ func evaluate(p *parent, tr *traceResult) {
 		probs, matched := judge(c, e, res, cr, byCase[c.ID], tr.Own[markOf(c)])
 		probs = append(probs, extraProbs[c.ID]...)
 		optionEvidence(c, res, cr, len(probs) == 0 && matched > 0)
+		hostileEvidence(c, res, cr, len(probs) == 0 && matched > 0)
 		evs := byCase[c.ID]
 		if len(evs) > 12 {
 			evs = evs[:12]
@@ -1166,20 +1189,29 @@ func evaluate(p *parent, tr *traceResult) {
 						key = pr.class + c.siblingSuffix()
 					}
 				}
+				what := fmt.Sprintf("addr %q dial_addr %q: %s", c.Addr, c.DialAddr, pr.text)
+				if c.Srv != "" {
+					// the failing dimension is what the server did, not the written form
+					key = pr.class + "-" + sn + "-server-" + c.Srv
+					what = fmt.Sprintf("addr %q dial_addr %q, %d exchanges against a server playing %q (%v): %s", c.Addr, c.DialAddr, c.Exchanges, c.srvFP(), hostileSamples(cr), pr.text)
+				}
 				if seen[key] {
 					continue
 				}
 				seen[key] = true
-				rep.Violation(key, fmt.Sprintf("addr %q dial_addr %q: %s", c.Addr, c.DialAddr, pr.text), w)
+				rep.Violation(key, what, w)
 			}
 			continue
 		}
 		if matched > 0 {
 			nontrivial++
-			rep.Nontrivial(c.Addr + "|" + c.DialAddr + "|" + c.Via + "|" + strconv.Itoa(c.BootVer) + "|" + c.optFP() + "|" + c.Focus + "#" + strconv.Itoa(c.Order))
+			rep.Nontrivial(c.Addr + "|" + c.DialAddr + "|" + c.Via + "|" + strconv.Itoa(c.BootVer) + "|" + c.optFP() + "|" + c.Focus + "#" + strconv.Itoa(c.Order) + c.srvFP())
 			rep.SetAdd("classes_observed", c.classFP())
 			rep.SetAdd("scheme_x_hostform_observed", sn+" "+c.HostClass)
 			k := sn + "/" + c.Via
+			if c.Srv != "" {
+				k = "server/" + c.Srv
+			}
 			if !sampled[k] && (res.ReplyOK || len(sampled) < 3) && rep.WantSample() {
 				sampled[k] = true
 				rep.Sample(w)
@@ -1198,7 +1230,10 @@ func evaluate(p *parent, tr *traceResult) {
 			"sibling_forward_later_members_judged", "forward_members_observed", "forward_members_option_absent_after_sibling_with_option",
 			"forward_members_inheriting_plugin_global_option_observed", "option_singles_observed",
 			"ignored_socks5_upstreams_observed_going_direct", "ignored_socks5_udp_tcp_fallback_observed_direct",
-			"alias_through_option_upstreams_observed", "trace_dest_attributed_by_plugin_global_so_mark", "bootstrap_questions_at_plugin_global_server", "sibling_same-host_later_members_judged", "unhonourable_address_rejected", "handshake_ok_ip_san_only", "handshake_ok_dns_san_only", "clienthello_sni_equals_expected"}
+			"alias_through_option_upstreams_observed", "trace_dest_attributed_by_plugin_global_so_mark", "bootstrap_questions_at_plugin_global_server", "sibling_same-host_later_members_judged", "unhonourable_address_rejected", "handshake_ok_ip_san_only", "handshake_ok_dns_san_only", "clienthello_sni_equals_expected",
+			"hostile_cases_observed_redirect", "hostile_cases_observed_alt-svc", "hostile_cases_observed_misdirected", "hostile_cases_observed_conn-close",
+			"hostile_cases_observed_alpn", "hostile_cases_observed_quic-retry", "hostile_arrivals_after_first_hostile_act_judged",
+			"hostile_cases_with_reconnect_observed", "hostile_decoy_listeners_open", "own_tls_connections_opened_with_a_tls_record"}
 		sort.Strings(need)
 		for _, k := range need {
 			if rep.Get(k) == 0 {
@@ -1223,6 +1258,24 @@ func evaluate(p *parent, tr *traceResult) {
 	} else if len(p.results) == 0 {
 		rep.Inconclusive("replayed case was not executed")
 	}
+}
+
+func boolN(b bool) int64 {
+	if b {
+		return 1
+	}
+	return 0
+}
+
+func hostileSamples(cr *caseRes) []string {
+	if cr == nil || cr.obs.Hostile == nil {
+		return nil
+	}
+	s := cr.obs.Hostile.Samples
+	if len(s) > 2 {
+		s = s[:2]
+	}
+	return s
 }
 
 func containsStr(l []string, s string) bool {
